@@ -205,26 +205,32 @@ def check_pipe(c, repo):
     puts = cfg_nodes_with_call(f, lambda k: callee_last(k) == 'put')
     sent = [(n, k) for n, k in puts if k.args and is_const(k.args[0], None)]
     data = [(n, k) for n, k in puts if (n, k) not in sent]
-    c.need(len(sent) == 1 and len(data) == 1, '_read_incoming: expected one sentinel put and one data put')
-    sn, sk = sent[0]
+    c.need(len(sent) >= 1 and len(data) == 1, '_read_incoming: expected a sentinel put and one data put')
     dn, dk = data[0]
     reads = cfg_nodes_with_call(f, lambda k: dotted(k.func) == 'os.read')
     c.need(len(reads) == 1 and isinstance(reads[0][0].ast, ast.Assign), '_read_incoming: buf = os.read(...) not found')
     rn = reads[0][0]
     var = rn.ast.targets[0].id
     c.check(is_name(dk.args[0], var), f, dk, 'the chunk that was read is what gets queued', witness=norm(dk), kind='ast', tag='put-chunk')
-    # sentinel once and last: after the sentinel put every path reaches the exit without another put / read
-    after = g.reachable(sn, skip_labels=('exc',), include_start=False)
-    bad = [m for m in after if m is dn or m is rn or m is sn]
-    c.check(not bad and g.exit in after, f, sk, 'the None sentinel is the last thing queued, exactly once, then the thread returns',
-            witness='after the sentinel the thread can reach L%d again' % bad[0].lineno if bad else None, tag='sentinel-last')
-    # sentinel only when the read was empty
-    tests = [t for t in g.nodes if t.kind == 'test' and norm(t.ast) in ('not %s' % var, "%s == b''" % var)]
-    c.need(len(tests) == 1, '_read_incoming: emptiness test not found')
-    c.check(sn in guard_region(g, tests[0], 'true') and dn not in guard_region(g, tests[0], 'true'), f, tests[0].ast,
-            'sentinel iff the read returned nothing; data chunks are queued otherwise', tag='sentinel-iff-empty')
+    # sentinel once and last: after a sentinel put every path reaches the exit without another put / read
+    # (the end-of-stream branch may be written once, or once per way of getting there: failed read, empty read)
+    sns = set(n for n, _ in sent)
+    for sn, sk in sent:
+        after = g.reachable(sn, skip_labels=('exc',), include_start=False)
+        bad = [m for m in after if m is dn or m is rn or m in sns]
+        c.check(not bad and g.exit in after, f, sk, 'the None sentinel is the last thing queued, exactly once, then the thread returns',
+                witness='after the sentinel the thread can reach L%d again' % bad[0].lineno if bad else None, tag='sentinel-last' + ('' if len(sent) == 1 else ':%d' % sent.index((sn, sk))))
+    # sentinel only when the read was empty: with a non-empty chunk no sentinel put can be reached before the next read, with an
+    # empty one the data put cannot
+    p_ = g.path(rn, sns, avoid={rn}, skip_labels=('exc',), include_start=False, assume=emptiness_facts(var, False))
+    p2_ = g.path(rn, {dn}, avoid={rn}, skip_labels=('exc',), include_start=False, assume=emptiness_facts(var, True))
+    c.check(p_ is None and p2_ is None, f, sent[0][1],
+            'sentinel iff the read returned nothing; data chunks are queued otherwise',
+            witness=('a non-empty chunk ends the stream: ' + g.describe_path(p_)) if p_ else (('an empty chunk is queued as data: ' + g.describe_path(p2_)) if p2_ else None),
+            tag='sentinel-iff-empty')
+    sn = sent[0][0]
     # every non-empty read is queued before the next read
-    ok, p = g.must_pass(rn, {rn, g.exit}, {dn, sn}, skip_labels=('exc',))
+    ok, p = g.must_pass(rn, {rn, g.exit}, {dn} | sns, skip_labels=('exc',))
     c.check(ok, f, dk, 'every read is followed by a put (chunk or sentinel) before the next read / exit',
             witness='path: ' + g.describe_path(p) if p else None, tag='every-chunk-queued')
     # consumer
